@@ -37,6 +37,10 @@ CHECKS = {
             "Every output of every save in the workload is parsed by a reader that shares no code with the library and trusts only the header tables; declared sizes are compared with "
             "what the writer emitted between Block hook events and with what the reader consumes on reload; string-index fields are located through the StringRef hook. "
             "The workload writes files after plain round trips, second generation, API construction and random edit sequences in all versions.", "3/C07"),
+    "C10": ("exploration", "runtime monitor: structural invariant checker over NiSkinPartition/BSDismemberSkinInstance state after every partition operation and after save+reload",
+            "Skinned shapes with 1..120 bones and 1..8 influences are built in OB/FO3/SK/SSE, partitions are rebuilt and triangles re-assigned with in-range, unassigned and "
+            "out-of-range labels, emptied, deleted and reset; after each step the coverage / vertex-map / mapped-triangle / bone-limit / weight / alignment invariants are evaluated "
+            "on the live blocks.", "3/C10"),
     "C13": ("exploration", "runtime monitor: API round-trip oracle (setter/creator -> getter, in memory and after save+reload) with storage-quantisation models, over versions x boundary vertex/triangle counts, under ASan/UBSan",
             "Meshes at the sizes {1,2,3,...,65535,65536,70000} are created in six versions; every getter is compared with the given data under the exact storage model (half-float "
             "rounding, byte quantisation) before and after raw/default save+reload, each setter is followed by all getters and by an all-arrays length check.", "3/C13"),
